@@ -564,8 +564,8 @@ func vh_C04_SetForInterface() {
 
 func vh_C04_StreamSet() {
 	vfSetMapOrder(3)
-	ga, ta, _ := c05StreamSets("a", false)
-	gb, tb, _ := c05StreamSets("b", false)
+	ga, ta, _ := c05StreamSetsN("a", false, 2, 1)
+	gb, tb, _ := c05StreamSetsN("b", false, 2, 1)
 	ops := []string{"Clone", "Union", "Intersection", "MinusStreams", "Minus"}
 	op := ops[vfChoose("op", len(ops))]
 	generic := vfChoose("family", 2) == 0
@@ -584,7 +584,12 @@ func vh_C04_StreamSet() {
 			case "MinusStreams":
 				rg = ga.MinusStreams(gb)
 			case "Minus":
-				rg = c05AsStreamSet(ga.Minus(&gb.MapSetDef))
+				m := ga.Minus(&gb.MapSetDef)
+				if m.AsMapSet() == &ga.MapSetDef {
+					rg = ga // the receiver itself (allowed)
+				} else {
+					rg = c05AsStreamSet(m)
+				}
 			}
 		} else {
 			switch op {
